@@ -12,12 +12,12 @@ def _c04_case(c):
 import copyvm as _copyvm
 
 CONFIG = {
-    "post_model": _copyvm.vm_sample("GC04", runfn="run_opt_h", imports=" Model.CopyHold"),
+    "post_model": _copyvm.vm_sample("GC04", runfn="run_opt_p", imports=" Model.CopyHold Model.CopyPermit"),
     "properties_file": "Properties/C04.v",
-    "proof_files": ["Base/Prelude.v", "Proofs/CopySpec.v", "Proofs/CopyAcct.v", "Proofs/CopyOpt.v", "Proofs/CopyAbort.v", "Proofs/CopyHold.v", "Proofs/CopySrcOrder.v",
+    "proof_files": ["Base/Prelude.v", "Proofs/CopySpec.v", "Proofs/CopyAcct.v", "Proofs/CopyOpt.v", "Proofs/CopyAbort.v", "Proofs/CopyHold.v", "Proofs/CopyPermit.v", "Proofs/CopySrcOrder.v",
                     # the permit protocol (C02's protocol part): C04_permits_conserved / C04_inflight_bounded are restated in Properties/C04.v
                     "Model/CopyImpl.v", "Proofs/CopyImplBase.v", "Proofs/CopyImplInv.v", "Properties/C02_protocol.v", "Proofs/CopyPermitsFinal.v"],
-    "model_files": ["Generated/GC04.v", "Model/CopySpec.v", "Model/CopyTop.v", "Model/CopyOpt.v", "Model/CopyCancel.v", "Model/CopyHold.v"],
+    "model_files": ["Generated/GC04.v", "Model/CopySpec.v", "Model/CopyTop.v", "Model/CopyOpt.v", "Model/CopyCancel.v", "Model/CopyHold.v", "Model/CopyPermit.v"],
     "extract": "XC04.v",
     "ml_main": "c01_main.ml",
     "harness_test": True,
